@@ -15,7 +15,8 @@ from .control import ControlWorld, gen_command, public_members
 
 def gen_scenario(rng):
     return {"cls": rng.choice(["T", "T", "S", "XT", "XS"]), "size": rng.choice([None, None, 1, 2, 3]), "seed": rng.getrandbits(48),
-            "n": rng.randint(5, 30), "sfunc": rng.choice(["work", "work", "block", "fail"]), "width": rng.choice([80, 80, 60, 200])}
+            "n": rng.randint(5, 30), "sfunc": rng.choice(["work", "work", "block", "fail"]), "width": rng.choice([80, 80, 60, 200]),
+            "noise": rng.random() < 0.5}
 
 
 class World(ControlWorld):
@@ -84,6 +85,12 @@ class World(ControlWorld):
         if s.handshake_exc is not None:
             return
         closed = False
+        noise = None
+        if self.sc.get("noise"):
+            # a second client of the same width on the same pool that only ever sends help requests and ill-formed lines
+            noise = await self.open(served, self.sc["width"], handshake_clause="C17.reply")
+            if noise.handshake_exc is not None:
+                noise = None
         for step in range(self.sc["n"]):
             avoid = set()
             if not closed:
@@ -95,6 +102,16 @@ class World(ControlWorld):
                 targets.release_event().set()
                 await self.idle()
             self.programs += 1
+            if noise is not None and rng.random() < 0.4:
+                from .c18 import invalid_line
+
+                nl = rng.choice([invalid_line(cls, rng, None), rng.choice(["-h", "cancel -h", "pool-size -h", "lock --help"])])
+                before_noise = snapshot(served)
+                await self.send(noise, nl)
+                if snapshot(served) != before_noise:
+                    self.violate("C17.state", f"the ill-formed line {nl!r} of another session changed the pool")
+                self.sit["C17.noise_lines"] += 1
+                s.new_writes()
             got = await self.send(s, cmd.line)
             outcome = await self.direct(twin, cmd)
             await self.idle()
